@@ -1,9 +1,9 @@
-import IcyVerif.Lemmas.UndoRows
+import IcyVerif.Lemmas.UndoFrames2
 set_option linter.unusedSimpArgs false
 set_option linter.unusedVariables false
-/-! # C08: the modelled public operations (`Call`) only push records that obey the inverse law -/
+/-! # C08: every public operation of `Call` only pushes records that obey the inverse law -/
 namespace IcyVerif.Undo
-
+open IcyVerif.Gen.Undo
 
 theorem onValid_some {d : Doc} {layer : Nat} {op o : UndoOp} (h : onValid d layer op = .ok (some o)) : o = op := by
   unfold onValid at h
@@ -16,14 +16,114 @@ theorem onCurrent_some {d : Doc} {mk : Nat → UndoOp} {o : UndoOp} (h : onCurre
   | none => rw [hc] at h; simp at h
   | some i => rw [hc] at h; simp at h; exact ⟨i, h.symm⟩
 
-/-- every step of every modelled public operation of `Call` pushes only records that obey the inverse law — at
-    every document, with no side condition -/
+/-- a record pushed with `push_undo_action` whose effect on the document is known -/
+theorem inverseAt_of_undoable {op : UndoOp} {d : Doc} (h : ∀ op' d', op.redo d = .ok (op', d') → Undoable op' d.obs d'.obs) :
+    InverseAt op d := h
+
+theorem setSelectionBuild_good (s : Doc → Except Err Sel) : (Step.act (fun d => setSelectionBuild (s d) d)).Good := by
+  intro d op hop
+  simp only [setSelectionBuild] at hop
+  cases hs : s d with
+  | error e => rw [hs] at hop; simp at hop
+  | ok sl =>
+    rw [hs] at hop
+    simp only at hop
+    split at hop <;> simp at hop
+    subst hop; exact inverse_setSelection d _ _
+
+theorem clearSelectionBuild_good : (Step.act clearSelectionBuild).Good := by
+  intro d op hop
+  simp only [clearSelectionBuild] at hop
+  split at hop <;> simp at hop
+  subst hop; exact inverse_selectNothing d _ _
+
+theorem replaceFontUsage_good (src dst : Nat) : (Step.edit (replaceFontUsageEdit src dst)).Good := by
+  intro d op d' h
+  simp only [replaceFontUsageEdit] at h
+  simp at h
+  obtain ⟨rfl, rfl⟩ := h
+  exact undoable_replaceFontUsage d _ _ _
+
+theorem areaSteps_good (f : Doc → LayerM → Rect → Except Err LayerM)
+    (hf : ∀ d l l', f d l (getArea d.sel l.rect) = .ok l' → Frame (getArea d.sel l.rect) l.obs l'.obs) :
+    ∀ s ∈ areaSteps f, s.Good := by
+  intro s hs
+  simp only [areaSteps, List.mem_cons, List.mem_nil_iff, or_false] at hs
+  rcases hs with rfl | rfl | rfl
+  · trivial
+  · exact areaOp_good f hf
+  · trivial
+
+theorem centerSteps_good : ∀ s ∈ centerSteps, s.Good := by
+  intro s hs
+  simp only [centerSteps, List.mem_append, List.mem_cons, List.mem_nil_iff, or_false] at hs
+  rcases hs with (rfl | hs) | rfl | rfl
+  · trivial
+  · exact areaSteps_good justifyLeftF (fun d l l' h => justifyLeft_frame d l _ l' h) s hs
+  · exact areaOp_good centerF (fun d l l' h => center_frame d l _ l' h)
+  · trivial
+
+theorem scrollLeft_good : (Step.edit (fun d => match d.curLayer with
+      | none => .error .err
+      | some (i, l) => let a := getArea d.sel l.rect; if a.isEmpty then .ok none else layerEdit d i l a (scrollLeftF d l a))).Good :=
+  scrollLR_good true
+
+theorem scrollRight_good : (Step.edit (fun d => match d.curLayer with
+      | none => .error .err
+      | some (i, l) => let a := getArea d.sel l.rect; if a.isEmpty then .ok none else layerEdit d i l a (scrollRightF d l a))).Good :=
+  scrollLR_good false
+
+theorem merge_undoable {d : Doc} {layer : Nat} {op op' : UndoOp} {d' : Doc} (hb : mergeBuild layer d = .ok (some op))
+    (hr : op.redo d = .ok (op', d')) : Undoable op' d.obs d'.obs := by
+  unfold mergeBuild at hb
+  split at hb
+  · simp at hb
+  · cases hc : d.curLayer with
+    | none => rw [hc] at hb; simp at hb
+    | some p =>
+      obtain ⟨j, c⟩ := p
+      rw [hc] at hb
+      simp only at hb
+      split at hb
+      · simp at hb
+      · cases h1 : d.layers[layer - 1]? with
+        | none => rw [h1] at hb; simp at hb
+        | some base =>
+          cases h2 : d.layers[layer]? with
+          | none => rw [h1, h2] at hb; simp at hb
+          | some cur =>
+            rw [h1, h2] at hb
+            simp only at hb
+            cases hm : mergeLayers base cur with
+            | none => rw [hm] at hb; simp at hb
+            | some r =>
+              rw [hm] at hb
+              cases r with
+              | none => simp at hb
+              | some m =>
+                simp at hb
+                subst hb
+                exact inverse_mergeLayerDown d layer m none op' d' hr
+
+/-- every step of every public operation of `Call` pushes only records that obey the inverse law — at every document,
+    with no side condition -/
 theorem call_steps_good (c : Call) : ∀ s ∈ c.steps, s.Good := by
   intro s hs
   cases c with
   | setCaret x y => simp [Call.steps] at hs; subst hs; intro d; rfl
   | setCurrentLayer i => simp [Call.steps] at hs; subst hs; intro d; rfl
+  | selectPasteLayer =>
+    simp [Call.steps] at hs; subst hs
+    intro d
+    simp only
+    split <;> rfl
   | setMirror b => simp [Call.steps] at hs; subst hs; intro d; rfl
+  | setChar x y c => simp [Call.steps] at hs; subst hs; exact setChar_good x y c
+  | swapChar x1 y1 x2 y2 =>
+    simp [Call.steps] at hs; subst hs
+    intro d op hop
+    obtain ⟨i, rfl⟩ := onCurrent_some hop
+    exact inverse_swapChar d i _ _ _ _
   | addLayer layer =>
     simp [Call.steps] at hs
     rcases hs with rfl | rfl
@@ -68,6 +168,57 @@ theorem call_steps_good (c : Call) : ∀ s ∈ c.steps, s.Good := by
     · intro d op hop
       rw [onValid_some hop]; exact inverse_clearLayer d layer []
     · intro d; rfl
+  | mergeLayerDown layer =>
+    simp [Call.steps] at hs; subst hs
+    intro d op d' h
+    simp only [mergeEdit] at h
+    cases hb : mergeBuild layer d with
+    | error e => rw [hb] at h; simp at h
+    | ok r =>
+      rw [hb] at h
+      cases r with
+      | none => simp at h
+      | some op0 =>
+        simp only at h
+        cases hr : op0.redo d with
+        | error e => rw [hr] at h; simp at h
+        | ok q =>
+          obtain ⟨op1, d1⟩ := q
+          rw [hr] at h
+          simp at h
+          obtain ⟨rfl, rfl⟩ := h
+          exact merge_undoable (d' := d1) hb hr
+  | anchorLayer =>
+    simp [Call.steps] at hs
+    rcases hs with rfl | rfl
+    · trivial
+    · intro d op d' h
+      simp only [anchorEdit] at h
+      cases hc : d.curLayer with
+      | none => rw [hc] at h; simp at h
+      | some p =>
+        obtain ⟨i, c⟩ := p
+        rw [hc] at h
+        simp only at h
+        split at h
+        · simp at h
+        · cases hb : mergeBuild i d with
+          | error e => rw [hb] at h; simp at h
+          | ok r =>
+            rw [hb] at h
+            cases r with
+            | none => simp at h
+            | some op0 =>
+              simp only at h
+              cases hr : op0.redo d with
+              | error e => rw [hr] at h; simp at h
+              | ok q =>
+                obtain ⟨op1, d1⟩ := q
+                rw [hr] at h
+                simp at h
+                obtain ⟨rfl, rfl⟩ := h
+                have h1 := merge_undoable (d' := d1) hb hr
+                exact undoable_atomic (a := d.obs) (c := d1.obs) (.cons h1 (.nil _))
   | toggleVisibility layer =>
     simp [Call.steps] at hs; subst hs
     intro d op hop
@@ -76,33 +227,109 @@ theorem call_steps_good (c : Call) : ∀ s ∈ c.steps, s.Good := by
     simp [Call.steps] at hs; subst hs
     intro d op hop
     simp only at hop
-    cases hc : d.currentLayer with
+    cases hc : d.curLayer with
     | none => rw [hc] at hop; simp at hop
-    | some i =>
+    | some p =>
+      obtain ⟨i, l⟩ := p
       rw [hc] at hop
-      simp only at hop
-      cases hl : d.layers[i]? with
-      | none => rw [hl] at hop; simp at hop
-      | some l =>
-        rw [hl] at hop
-        simp at hop
-        subst hop
-        apply inverse_moveLayer
-        intro l' hl'
-        -- the unclamped index is valid, so it is the clamped one
-        have hlt : d.cur < d.layers.length := (List.getElem?_eq_some_iff.mp hl').1
-        have hi : i = d.cur := by
-          unfold Doc.currentLayer at hc
-          split at hc <;> simp at hc
-          omega
-        subst hi
-        rw [hl] at hl'
-        cases hl'
-        exact ⟨rfl, rfl⟩
+      simp at hop
+      subst hop
+      apply inverse_moveLayer
+      intro l' hl'
+      -- the unclamped index is valid, so it is the clamped one
+      have hlt : d.cur < d.layers.length := (List.getElem?_eq_some_iff.mp hl').1
+      have hl := curLayer_some hc
+      have hi : i = d.cur := by
+        unfold Doc.curLayer at hc
+        cases hcl : d.currentLayer with
+        | none => rw [hcl] at hc; simp at hc
+        | some j =>
+          rw [hcl] at hc
+          simp only at hc
+          cases hlj : d.layers[j]? with
+          | none => rw [hlj] at hc; simp at hc
+          | some l0 =>
+            rw [hlj] at hc
+            simp at hc
+            unfold Doc.currentLayer at hcl
+            split at hcl <;> simp at hcl
+            omega
+      subst hi
+      rw [hl] at hl'
+      cases hl'
+      exact ⟨rfl, rfl⟩
   | setLayerSize layer w h =>
     simp [Call.steps] at hs; subst hs
     intro d op hop
     rw [onValid_some hop]; exact inverse_setLayerSize d layer w h w h
+  | updateLayerProps layer flags =>
+    simp [Call.steps] at hs; subst hs
+    intro d op hop
+    simp only at hop
+    cases hl : d.layers[layer]? with
+    | none => rw [hl] at hop; simp at hop
+    | some l =>
+      rw [hl] at hop
+      simp at hop
+      subst hop
+      exact inverse_updateLayerProps d layer _ _ (fun l0 hl0 => by rw [hl] at hl0; cases hl0; rfl)
+  | rotateLayer =>
+    simp [Call.steps] at hs; subst hs
+    intro d op hop
+    simp only [rotateBuild] at hop
+    cases hl : d.layers[d.cur]? with
+    | none => rw [hl] at hop; simp at hop
+    | some l =>
+      rw [hl] at hop
+      simp only at hop
+      cases hn : newLayer l.h l.w with
+      | error e => rw [hn] at hop; simp at hop
+      | ok nl =>
+        rw [hn] at hop
+        simp at hop
+        subst hop
+        exact inverse_rotateLayer d d.cur _ _ (fun l0 hl0 => by rw [hl] at hl0; cases hl0; rfl)
+  | makeTransparent =>
+    simp [Call.steps] at hs
+    rcases hs with rfl | rfl | rfl
+    · trivial
+    · exact makeTransparent_good
+    · trivial
+  | stampDown =>
+    simp [Call.steps] at hs
+    rcases hs with rfl | rfl | rfl
+    · trivial
+    · exact stampDown_good
+    · trivial
+  | paste layer =>
+    simp [Call.steps] at hs
+    rcases hs with rfl | rfl
+    · intro d op hop
+      simp only [pasteBuild] at hop
+      cases layer with
+      | none => simp at hop
+      | some l =>
+        simp only at hop
+        obtain ⟨i, rfl⟩ := onCurrent_some hop
+        exact inverse_paste d i l
+    · intro d; rfl
+  | addFloatingLayer =>
+    simp [Call.steps] at hs; subst hs
+    intro d op hop
+    simp only [floatBuild] at hop
+    cases hc : d.curLayer with
+    | none => rw [hc] at hop; simp at hop
+    | some p =>
+      obtain ⟨i, l⟩ := p
+      rw [hc] at hop
+      simp only at hop
+      split at hop
+      · rename_i hcond
+        simp at hop
+        subst hop
+        have hl := curLayer_some hc
+        exact inverse_addFloatingLayer d i (fun l0 hl0 => by rw [hl] at hl0; cases hl0; exact hcond)
+      · simp at hop
   | resizeBuffer w h =>
     simp [Call.steps] at hs; subst hs
     intro d op hop
@@ -155,19 +382,12 @@ theorem call_steps_good (c : Call) : ∀ s ∈ c.steps, s.Good := by
     intro d op hop
     obtain ⟨i, rfl⟩ := onCurrent_some hop
     exact inverse_insertColumn d i _
-  | setSelection r =>
+  | setSelection sl =>
     simp [Call.steps] at hs; subst hs
-    intro d op hop
-    simp only at hop
-    split at hop <;> simp at hop
-    subst hop; exact inverse_setSelection d _ _
+    exact setSelectionBuild_good (fun _ => .ok sl)
   | clearSelection =>
     simp [Call.steps] at hs; subst hs
-    intro d op hop
-    simp only at hop
-    cases hsel : d.sel with
-    | none => rw [hsel] at hop; simp at hop
-    | some sl => rw [hsel] at hop; simp at hop; subst hop; exact inverse_selectNothing d _
+    exact clearSelectionBuild_good
   | deselect =>
     simp [Call.steps] at hs; subst hs
     intro d op hop
@@ -175,6 +395,210 @@ theorem call_steps_good (c : Call) : ∀ s ∈ c.steps, s.Good := by
     cases hsel : d.sel with
     | none => rw [hsel] at hop; simp at hop
     | some sl => rw [hsel] at hop; simp at hop; subst hop; exact inverse_deselect d _
+  | addSelectionToMask =>
+    simp [Call.steps] at hs; subst hs
+    intro d op hop
+    simp only at hop
+    cases hsel : d.sel with
+    | none => rw [hsel] at hop; simp at hop
+    | some sl => rw [hsel] at hop; simp at hop; subst hop; exact inverse_addSelectionToMask d _ _
+  | inverseSelection =>
+    simp [Call.steps] at hs; subst hs
+    intro d op d' hop
+    simp at hop
+    obtain ⟨rfl, rfl⟩ := hop
+    exact undoable_inverseSelection d _ _ _
+  | enumerateSelections kind =>
+    simp [Call.steps] at hs; subst hs
+    intro d op d' hop
+    simp only [enumerateEdit] at hop
+    cases hc : d.curLayer with
+    | none => rw [hc] at hop; simp at hop
+    | some p =>
+      obtain ⟨i, l⟩ := p
+      rw [hc] at hop
+      simp only at hop
+      generalize List.foldl _ d.mask (intRange 0 d.h) = m at hop
+      split at hop
+      · simp at hop
+      · simp at hop
+        obtain ⟨rfl, rfl⟩ := hop
+        exact undoable_selection _ d _ rfl (fun e => ⟨{ e with mask := d.mask }, by simp [UndoOp.undo], rfl⟩)
+          (fun e => ⟨{ e with mask := m }, by simp [UndoOp.redo], rfl⟩)
+  | eraseSelection =>
+    simp [Call.steps] at hs; subst hs
+    exact erase_good
+  | eraseLine kind =>
+    simp [Call.steps] at hs
+    rcases hs with rfl | rfl | rfl | rfl
+    · trivial
+    · exact setSelectionBuild_good (eraseLineSel kind)
+    · exact erase_good
+    · trivial
+  | flipX => exact areaSteps_good flipXF (fun d l l' h => flipX_frame d l _ l' h) s hs
+  | flipY => exact areaSteps_good flipYF (fun d l l' h => flipY_frame d l _ l' h) s hs
+  | justifyLeft => exact areaSteps_good justifyLeftF (fun d l l' h => justifyLeft_frame d l _ l' h) s hs
+  | justifyRight => exact areaSteps_good justifyRightF (fun d l l' h => justifyRight_frame d l _ l' h) s hs
+  | center => exact centerSteps_good s hs
+  | lineOp kind =>
+    simp only [Call.steps, List.mem_append, List.mem_cons, List.mem_nil_iff, or_false] at hs
+    rcases hs with ((rfl | rfl) | hs) | rfl | rfl
+    · trivial
+    · exact setSelectionBuild_good lineSel
+    · split at hs
+      · exact areaSteps_good justifyLeftF (fun d l l' h => justifyLeft_frame d l _ l' h) s hs
+      · split at hs
+        · exact areaSteps_good justifyRightF (fun d l l' h => justifyRight_frame d l _ l' h) s hs
+        · exact centerSteps_good s hs
+    · exact clearSelectionBuild_good
+    · trivial
+  | scrollUp =>
+    simp [Call.steps] at hs
+    rcases hs with rfl | rfl | rfl
+    · trivial
+    · exact scroll_good true
+    · trivial
+  | scrollDown =>
+    simp [Call.steps] at hs
+    rcases hs with rfl | rfl | rfl
+    · trivial
+    · exact scroll_good false
+    · trivial
+  | scrollLeft =>
+    simp only [Call.steps, List.mem_cons, List.mem_nil_iff, or_false] at hs
+    rcases hs with rfl | rfl | rfl
+    · trivial
+    · exact scrollLeft_good
+    · trivial
+  | scrollRight =>
+    simp only [Call.steps, List.mem_cons, List.mem_nil_iff, or_false] at hs
+    rcases hs with rfl | rfl | rfl
+    · trivial
+    · exact scrollRight_good
+    · trivial
+  | switchToFontPage page =>
+    simp [Call.steps] at hs; subst hs
+    intro d op hop
+    simp at hop; subst hop; exact inverse_switchToFontPage d _ _
+  | setFont kind font =>
+    simp [Call.steps] at hs; subst hs
+    intro d op hop
+    have key : ∀ (page f : Nat) (b : Bool), setFontInSlot d page f b = .ok (some op) → InverseAt op d := by
+      intro page f b h
+      unfold setFontInSlot at h
+      cases hlk : fmLookup d.x.fonts page with
+      | some g => rw [hlk] at h; simp at h; subst h; exact inverse_setFont d page g f hlk
+      | none =>
+        rw [hlk] at h
+        simp only at h
+        split at h
+        · simp at h; subst h; exact inverse_addFont d _ _ _ _
+        · simp at h
+    unfold setFontBuild at hop
+    simp only at hop
+    split at hop
+    · simp at hop
+    · cases font with
+      | none => simp at hop
+      | some f =>
+        simp only at hop
+        split at hop
+        · exact key _ _ _ hop
+        · exact key _ _ _ hop
+  | addFont slot font =>
+    simp [Call.steps] at hs; subst hs
+    intro d op hop
+    unfold addFontBuild at hop
+    split at hop
+    · simp at hop
+    · cases font with
+      | none => simp at hop
+      | some f => simp at hop; subst hop; exact inverse_addFont d _ _ _ _
+  | replaceFontUsage src dst =>
+    simp [Call.steps] at hs; subst hs
+    exact replaceFontUsage_good src dst
+  | changeFontSlot src dst =>
+    simp [Call.steps] at hs
+    rcases hs with rfl | rfl | rfl | rfl
+    · trivial
+    · intro d op hop
+      simp only at hop
+      split at hop
+      · simp at hop; subst hop; exact inverse_changeFontSlot d src dst none
+      · simp at hop
+    · exact replaceFontUsage_good src dst
+    · trivial
+  | removeFont slot =>
+    simp [Call.steps] at hs
+    rcases hs with rfl | rfl | rfl | rfl
+    · trivial
+    · exact replaceFontUsage_good slot 0
+    · intro d op hop
+      simp at hop; subst hop; exact inverse_removeFont d slot none
+    · trivial
+  | setIceMode mode =>
+    simp [Call.steps] at hs; subst hs
+    intro d op hop
+    simp [iceBuild] at hop
+    subst hop
+    intro op' d' hr
+    simp [UndoOp.redo] at hr
+    obtain ⟨rfl, rfl⟩ := hr
+    exact undoable_setIceMode d mode _
+  | setPaletteMode mode =>
+    simp [Call.steps] at hs; subst hs
+    intro d op hop
+    simp only [paletteModeBuild] at hop
+    split at hop
+    · simp at hop
+    · split at hop
+      · simp at hop
+      · simp at hop
+        subst hop
+        intro op' d' hr
+        simp [UndoOp.redo] at hr
+        obtain ⟨rfl, rfl⟩ := hr
+        exact undoable_switchPalette d mode _ _
+  | copyPaste =>
+    simp [Call.steps] at hs
+    rcases hs with rfl | rfl
+    · intro d op hop
+      simp only at hop
+      cases hcl : copyLayer d with
+      | none => rw [hcl] at hop; simp at hop
+      | some layer =>
+        rw [hcl] at hop
+        simp only [pasteBuild] at hop
+        cases layer with
+        | none => simp at hop
+        | some l =>
+          simp only at hop
+          obtain ⟨i, rfl⟩ := onCurrent_some hop
+          exact inverse_paste d i l
+    · intro d; rfl
+  | switchToPalette pal =>
+    simp [Call.steps] at hs; subst hs
+    intro d op hop
+    simp at hop; subst hop; exact inverse_switchPalettte d pal
+  | updateSauce data =>
+    simp [Call.steps] at hs; subst hs
+    intro d op hop
+    simp at hop; subst hop; exact inverse_setSauceData d data
+  | undoCaretPosition =>
+    simp [Call.steps] at hs; subst hs
+    intro d op d' hop
+    simp at hop
+    obtain ⟨rfl, rfl⟩ := hop
+    exact undoable_reverseCaret d _ _ _ _
+  | pushReverseResize w h =>
+    simp [Call.steps] at hs; subst hs
+    intro d op hop
+    simp at hop; subst hop
+    -- the inner record leads from the resized document up to `d`
+    let d0 : Doc := ({ d with w := w, h := h } : Doc).setMaskSize
+    have hin : Undoable (.resizeBuffer w h d.w d.h) d0.obs d.obs :=
+      inverse_resizeBuffer d0 d.w d.h (.resizeBuffer w h d.w d.h) (({ d0 with w := d.w, h := d.h } : Doc).setMaskSize) rfl
+    exact inverse_reversed d _ d0.obs hin
   | beginAtomic => simp [Call.steps] at hs; subst hs; trivial
   | endAtomic => simp [Call.steps] at hs; subst hs; trivial
   | undo => simp [Call.steps] at hs; subst hs; trivial
